@@ -257,7 +257,21 @@ Section BSearch.
   Qed.
 
   (* with the current algorithm an Ok result is the LAST of several equal elements (why the lookups that
-     used binary_search_by on message times were wrong); stated for the documentation of the repaired defect *)
+     used binary_search_by on message times answered the last message of that time) *)
+  Theorem std_bsearch_ok_is_last l i : partitioned l -> std_bsearch cmp l = BOk i ->
+    forall j a, i < j -> nthN l j = Some a -> cmp a = Gt.
+  Proof.
+    intros Hp. unfold std_bsearch. destruct l as [|a0 r] eqn:El; [discriminate|].
+    rewrite <- El in *. assert (Hl1 : 1 <= len l) by (rewrite El, len_cons; lia).
+    assert (P1 : (N.to_nat (len l) <= length l)%nat) by (unfold len; lia).
+    assert (P2 : 0 + len l <= len l) by lia.
+    assert (P3 : 0 = 0 \/ cmp_at cmp l 0 <> Gt) by (left; reflexivity).
+    assert (P4 : forall j, 0 + len l <= j -> j < len l -> cmp_at cmp l j = Gt) by (intros; lia).
+    destruct (bs_loop_inv l Hp (length l) (len l) 0 P1 Hl1 P2 P3 P4) as [Hb [Hlo Hhi]].
+    cbv zeta in *. set (b := bs_loop (length l) cmp l (len l) 0) in *.
+    destruct (cmp_at cmp l b); intros H; inversion H; subst i.
+    intros j a Hj Ha. rewrite <- (cmp_at_some _ _ _ Ha). apply Hhi; [lia|]. eapply nthN_some_lt; exact Ha.
+  Qed.
 End BSearch.
 
 (* counting: if the elements before position i satisfy P and those from i on do not, i elements satisfy P *)
